@@ -38,11 +38,11 @@ type layout struct {
 // allLayouts: EVERY concrete layout a 2-key map can reach (read map, dirty map, amended, miss
 // counter, nil/expunged/live entries, values {1,2}), each with the shortest call sequence that
 // reaches it, computed by the sequential explicit-state search (single worker: deterministic).
-func allLayouts(r *ev.Run) []layout {
+func allLayouts(r *ev.Run, keys int) []layout {
 	var out []layout
-	seqmc.Explore(r, seqmc.Config{Name: "layouts", Workers: 1, New: func() seqmc.Sys { return maph.New(2) },
+	seqmc.Explore(r, seqmc.Config{Name: fmt.Sprint("layouts", keys), Workers: 1, New: func() seqmc.Sys { return maph.New(keys) },
 		OnState: func(path []seqmc.Op) {
-			name := "L" + fmt.Sprint(len(out)) + ":"
+			name := fmt.Sprintf("L%d/%d:", keys, len(out))
 			for _, o := range path {
 				name += fmt.Sprintf("%s%d", o.Name[:2], o.A)
 				if o.Name == "Store" || o.Name == "LoadOrStore" {
@@ -123,7 +123,7 @@ func scenario(lay layout, prog [][]call, bound, raceBound int) schk.Scenario {
 		Body: func(s *vrt.Sched) any {
 			r := &rec{ops: make([][]lin.Op, len(prog)+1)}
 			// sequential set-up (pass-through mode): replay the layout's call sequence
-			h := maph.New(2)
+			h := maph.New(3)
 			for _, o := range lay.pre {
 				h.Apply(o)
 			}
@@ -188,7 +188,7 @@ func scenario(lay layout, prog [][]call, bound, raceBound int) schk.Scenario {
 func main() {
 	r := ev.Start("C04")
 	var scs []schk.Scenario
-	layouts := allLayouts(r)
+	layouts := allLayouts(r, 2)
 	// a spread-out subset for the larger programs
 	var some []layout
 	for i, l := range layouts {
@@ -302,6 +302,41 @@ func main() {
 					{{{"LoadAndDelete", 0}, {"Store", 0}}, {{"Store", 1}, {"Load", 0}}},
 				} {
 					scs = append(scs, scenario(cl, pp, ev.Pick(r, 2, 3), -2))
+				}
+			}
+		}
+	}
+	if r.Thorough() {
+		// every reachable layout of a THREE-key map as start state: every pair of calls over 3 keys
+		alpha3 := append([]call{}, alphabet...)
+		alpha3 = append(alpha3, call{"Load", 2}, call{"Store", 2}, call{"LoadOrStore", 2}, call{"LoadAndDelete", 2})
+		for _, li := range allLayouts(r, 3) {
+			for i, a := range alpha3 {
+				for _, b := range alpha3[i:] {
+					if a.k != 2 && b.k != 2 && a.op != "Range" && b.op != "Range" {
+						continue // pairs without the third key are covered from the 2-key layouts
+					}
+					scs = append(scs, scenario(li, [][]call{{a}, {b}}, -1, -2))
+				}
+			}
+		}
+		// 3 threads x 2 calls and 1 call against 3 calls, from the shallowest layouts
+		progs := [][]call{{{"Store", 0}, {"Load", 0}}, {{"LoadAndDelete", 0}, {"Store", 0}}, {{"LoadOrStore", 0}, {"LoadAndDelete", 0}}, {{"Store", 1}, {"Range", 0}}, {{"Load", 2}, {"Load", 2}}}
+		long3 := [][]call{{{"Range", 0}, {"LoadAndDelete", 0}, {"Store", 1}}, {{"Load", 2}, {"Load", 2}, {"Store", 0}}, {{"Store", 1}, {"LoadAndDelete", 0}, {"Store", 0}}, {{"LoadAndDelete", 0}, {"Store", 1}, {"Store", 0}}, {{"Store", 0}, {"Range", 0}, {"LoadOrStore", 0}}}
+		for n, li := range layouts {
+			if n >= 12 {
+				break
+			}
+			for i, a := range progs {
+				for j, b := range progs[i:] {
+					for _, c := range progs[i+j:] {
+						scs = append(scs, scenario(li, [][]call{a, b, c}, 2, -2))
+					}
+				}
+			}
+			for _, a := range []call{{"Store", 0}, {"LoadOrStore", 0}, {"LoadAndDelete", 0}, {"Load", 0}, {"Range", 0}} {
+				for _, l := range long3 {
+					scs = append(scs, scenario(li, [][]call{{a}, l}, 3, -2))
 				}
 			}
 		}
